@@ -431,7 +431,7 @@ def _c_drivers(chk, tier):
                     n += 1
                     hg = Harness(accept_tape=acc, event_tape=ev, direction=direction, ham=False)
                     hh = Harness(accept_tape=acc, event_tape=ev, direction=direction, ham=True)
-                    kw = dict(grid=["0", "1/2", "1"]) if (fam == "fixed" or not event) else dict(t0=0, tmax=1)
+                    kw = dict(grid=["0", "1/4", "1"]) if (fam == "fixed" or not event) else dict(t0=0, tmax=1)   # non-uniform on purpose
                     kg, og = hg.run(RK, gen, **kw)
                     kh, oh = hh.run(RK, ham, **kw)
                     if kg != kh:
